@@ -84,7 +84,25 @@ def impl_main(mode, fin, fout):
                 res["html"][n] = safe(n)
             d = build_dict([t[0], _floatify(t[1])])
             try:
-                src = DecayChainViewer(d).to_string()
+                if len(res["graphs"]) % 2 == 1:
+                    # every second graph of a session is made in another thread of the same process (started and joined at once):
+                    # identifiers must stay unique across all graphs of the session
+                    import threading
+                    box = {}
+
+                    def work():
+                        try:
+                            box["src"] = DecayChainViewer(d).to_string()
+                        except Exception as e:  # noqa: BLE001
+                            box["exc"] = e
+                    th = threading.Thread(target=work)
+                    th.start()
+                    th.join()
+                    if "exc" in box:
+                        raise box["exc"]
+                    src = box["src"]
+                else:
+                    src = DecayChainViewer(d).to_string()
                 p = subprocess.run(["dot", "-Tcanon"], input=src, capture_output=True, text=True)
                 res["graphs"].append({"items": parse_dot(src), "dot_ok": p.returncode == 0, "dot_err": p.stderr[:200]})
             except Exception as e:
@@ -188,7 +206,7 @@ Definition vsession (k : nat) (l : list cdict) : val := let '(vs, k') := session
     diffs = vlib.compare_veq(ck, cases, impl_n, model_n)
     ck.cov["distinct_nontrivial"] = len({json.dumps(enc(c), sort_keys=True) for c in cases if json.dumps(enc(c)).count("[[") > 3})
     ck.cov["rule"] = ("random chain dictionaries: 1..5 lines at the top, 0..3 below, 0..4 daughters, nested to depth <= 3, lines without "
-                      "daughters, empty tables, EvtGen-specific names; 1..4 viewers per process with the counter threaded; "
+                      "daughters, empty tables, EvtGen-specific names; 1..4 viewers per process with the counter threaded, every second one created in another thread of the process; "
                       "non-trivial = nested structure")
     ck.cov["samples"] = [{"dicts": enc(cases[0]["dicts"]), "parsed": impl[0]["graphs"][0]}]
     ndot = sum(len(r["graphs"]) for r in impl)
